@@ -23,11 +23,25 @@ UNDECIDED = ["'strictly increasing, no duplicates' for every hunk alignment as a
 ASSUMPTIONS = []
 
 SN = "index::stitch::Stitch::next"
+RF = ["after"]      # name of IndexHunkIter's resume-point field: whatever advance_to_after sets from its argument (see _find_resume_field)
+
+
+def _find_resume_field(lib):
+    aa = lib.bodies.get("index::IndexHunkIter::advance_to_after")
+    if aa is None:
+        return
+    for bb, j, s in rules.agg_sites(aa, "index::IndexHunkIter"):
+        for f, op in zip(s["rv"]["fields"], s["rv"]["ops"]):
+            if op.get("k") != "const" and any(x[0] == "param" and x[1] == "apath" for x in flow.origins_x(lib, aa, op)):
+                RF[0] = f
+                return
+
 STATE = "index::stitch::State"
 
 
 def run(ck, w):
     lib = w.lib
+    _find_resume_field(lib)
     sn = w.body(SN)
     adt = lib.adts.get(STATE)
     if adt is None:
@@ -268,13 +282,27 @@ def run(ck, w):
         elif "index::IndexRead::iter_available_hunks" not in flow.origin_calls(recv):
             ck.fail(o, sn.name, "advance_to_after not applied to the band's hunk iterator", "receiver from %s" % flow.origin_summary(recv))
         else:
-            io = flow.origins_x(lib, sn, rules.field_operand(inband[0][1], "index_hunks"))
+            ih_op = rules.field_operand(inband[0][1], "index_hunks") if "index_hunks" in inband[0][1]["rv"]["fields"] else None
+            if ih_op is not None:
+                io = flow.origins_x(lib, sn, ih_op)
+            else:
+                # the band's reading position is a value of its own (`InBand(BandCursor)`): everything it is built from
+                io = set()
+                for op_ in inband[0][1]["rv"]["ops"]:
+                    if op_.get("k") != "const":
+                        io |= flow.origins_x(lib, sn, op_)
             if "index::IndexHunkIter::advance_to_after" in flow.origin_calls(io) or any(x[0] == "via" for x in io):
                 ck.ok(o, sites=[adv[0].site()])
             else:
                 ck.fail(o, sn.name, "advanced iterator not the one installed", "index_hunks from %s" % flow.origin_summary(io))
     o = ck.ob("C08.5b", "InBand: last_apath is updated from the last entry of every hunk that is installed")
     assigns = [(bb, s) for bb, j, s in sn.all_assigns() if s["pl"]["p"] and s["pl"]["p"][-1].startswith("f:") and s["pl"]["p"][-1].split(":", 2)[2] == "last_apath"]
+    # ... or through a `&mut self.last_apath` handed to a (dissolved) helper: `*last_apath = Some(..)`
+    for bb, j, s in sn.all_assigns():
+        if s["pl"]["p"] == ["*"] and "Option<apath::Apath>" in (sn.locals[s["pl"]["l"]] or ""):
+            oo_ = flow.origins_x(lib, sn, s["pl"]["l"])
+            if any(x[0] in ("param", "upvar") and x[2] and x[2][-1] == "last_apath" for x in oo_):
+                assigns.append((bb, s))
     hn = events_of(lib, sn, "index::IndexHunkIter::next") + events_of(lib, sn, "index::IndexHunkIter::try_next")
     if not assigns or not hn:
         ck.fail(o, sn.name, "last_apath never updated", "no assignment to self.last_apath")
@@ -314,7 +342,7 @@ def run(ck, w):
     else:
         okk = False
         for bb, j, s in rules.agg_sites(aa, "index::IndexHunkIter"):
-            ao = flow.origins_x(lib, aa, rules.field_operand(s, "after"))
+            ao = flow.origins_x(lib, aa, rules.field_operand(s, RF[0]))
             ho = flow.origins_x(lib, aa, rules.field_operand(s, "hunks"))
             if any(x[0] == "param" and x[1] == "apath" for x in ao) and any(x[0] == "param" and x[1] == "self" for x in ho):
                 okk = True
@@ -373,7 +401,7 @@ def _resume_skip(ck, w):
     e = bs[0]
     # the key closure must project the apath, and the needle must be the `after` path
     needle = flow.origins_x(lib, b, e.args[1]) if len(e.args) > 1 else set()
-    if not any(x[0] in ("param", "upvar") and "after" in x[2] for x in needle):
+    if not any(x[0] in ("param", "upvar") and RF[0] in x[2] for x in needle):
         ck.fail(o, b.name, "binary search needle is not self.after", "needle derives from %s" % flow.origin_summary(needle), e.site())
         return
     sw = None
@@ -440,7 +468,7 @@ def _resume_point_kept(ck, w):
     nxt = [e for e in b.events if e.bb in b.live and e.callee == "std::iter::Iterator::next"]
 
     def is_after_place(pl):
-        return any(p.startswith("f:") and p.split(":", 2)[2] == "after" for p in pl["p"])
+        return any(p.startswith("f:") and p.split(":", 2)[2] == RF[0] for p in pl["p"])
     clears, restores = [], set()
     for bb, j, st in b.all_assigns():
         if is_after_place(st["pl"]) and st["rv"]["rk"] == "agg" and st["rv"].get("adt") == "std::option::Option":
@@ -458,7 +486,7 @@ def _resume_point_kept(ck, w):
     for e in b.events:
         if e.bb in b.live and re.search(r"^std::option::Option::<T>::(take|take_if|replace)$|^std::mem::(take|replace|swap)$", e.name) and e.args:
             oo = flow.origins_x(lib, b, e.args[0])
-            if any(x[0] in ("param", "upvar") and "after" in x[2] for x in oo):
+            if any(x[0] in ("param", "upvar") and RF[0] in x[2] for x in oo):
                 clears.append((e.bb, e.name.split("::")[-1] + "()"))
     # the legitimate clearing edge: first > after decided true
     whole_edges = set()
@@ -468,7 +496,7 @@ def _resume_point_kept(ck, w):
             for a in e.args:
                 oo = flow.origins_x(lib, b, a)
                 calls = flow.origin_calls(oo)
-                kinds.append("after" if any(x[0] in ("param", "upvar", "call") and ("after" in (x[2] if x[0] != "call" else ())) for x in oo)
+                kinds.append("after" if any(x[0] in ("param", "upvar", "call") and (RF[0] in (x[2] if x[0] != "call" else ())) for x in oo)
                              else "first" if any(c.endswith("<impl [T]>::first") for c in calls) else "?")
             op = e.callee.rsplit("::", 1)[-1]
             if (kinds == ["first", "after"] and op == "gt") or (kinds == ["after", "first"] and op == "lt"):
@@ -519,7 +547,7 @@ def _hunk_level_cases(ck, w):
         for a in e.args:
             oo = flow.origins_x(lib, b, a)
             calls = flow.origin_calls(oo)
-            if any(x[0] in ("param", "upvar") and "after" in x[2] for x in oo):
+            if any(x[0] in ("param", "upvar") and RF[0] in x[2] for x in oo):
                 kinds.append("after")
             elif any(c.endswith("<impl [T]>::last") for c in calls):
                 kinds.append("last")
@@ -622,7 +650,8 @@ def band_left_only_when_exhausted(ck, w, rid, sn=None, sb=None, agg_by_arm=None)
         badt = []
         for bb, s_ in ab:
             for t_ in some_t:
-                if bb in sn.reachable(t_, removed_nodes={sb}):
+                # (reading the hunk iterator again - in an inner loop of a cursor type, say - is a new decision)
+                if bb in sn.reachable(t_, removed_nodes={sb} | {e.bb for e in tn}):
                     badt.append(bb)
         if not none_e:
             ck.fail(o, sn.name, "hunk iterator result not matched", "no test of the Option returned by the hunk iterator")
